@@ -89,6 +89,10 @@ def run(ctx):
     ctx.rule("C09-R7", "the worker can always observe termination: its loop parks only at the select!, handlers never await")
     shared.worker_loop_never_parks(ctx, "C09-R7", idx)
 
+    ctx.rule("C09-R8", "calls after termination end with the cause: finish() takes its result from stopped(); accept wrappers report the driver's error")
+    shared.finish_table(ctx, "C09-R8")
+    shared.accept_wrappers(ctx, "C09-R8")
+
     ctx.rule("C09-R6", "panic inventory of the worker and the Driver/Connection API (structural discharges where the invariant is visible)")
     inv = []
     targets = [fn for fn in A.fn_list if fn.body and re.match(r"^wtransport::(driver::(Driver|worker::Worker)|connection::Connection)::", fn.path) and "::tests::" not in fn.path]
